@@ -141,9 +141,51 @@ def _run_huge(sc, tape):
             'sample': {'mode': 'bundle larger than 4 GiB (sparse file on tmpfs)', 'backend': name}}
 
 
+def _gen_rows(t):
+    """a well-filled bundle: several complete rows of 128 tiles (what seeding a region leaves behind), a few overwrites and a
+    removal, then a defragmentation"""
+    return {'kind': 'rows', 'version': t.pick([1, 2]), 'rows': t.pick([1, 3, 4, 4, 5, 8]), 'level': t.pick([8, 9]),
+            'overwrite': [[t.choice(128), t.choice(8)] for _ in range(t.randint(1, 6))], 'remove': [t.choice(128), t.choice(8)],
+            'bufsize': t.pick([4096, 8192])}
+
+
+def _run_rows(sc, tape):
+    version = sc['version']
+    b = {'type': 'compact', 'version': version}
+    name = C.backend_name(b)
+    w = World(tape, with_sched=False)
+    v = None
+    probes = {'bundle_with_complete_rows': 1}
+    _CDIR[0] = C.CACHE_DIR
+    z = sc['level']
+    coords = [(x, y, z) for y in range(sc['rows']) for x in range(128)]
+    with w:
+        w.fs.buffer_size = sc['bufsize']
+        try:
+            cache = C.make_cache(b, C.CACHE_DIR)
+            for y in range(sc['rows']):
+                cache.store_tiles([C.make_tile((x, y, z), C.payload({'tok': 100000 + y * 128 + x, 'size': 0})) for x in range(128)])
+            for i, (x, y) in enumerate(sc['overwrite']):
+                y = y % sc['rows']
+                cache.store_tile(C.make_tile((x, y, z), C.payload({'tok': 900000 + i, 'size': 300})))
+            rx, ry = sc['remove'][0], sc['remove'][1] % sc['rows']
+            cache.remove_tile(C.make_tile((rx, ry, z)))
+            _validate(w, version, 'bundle with %d complete rows' % sc['rows'])
+            _defrag(w, C.make_cache(b, C.CACHE_DIR), version, coords, None, ['defrag', 0, 0, False, None],
+                    'defragmenting a bundle with %d complete rows' % sc['rows'], probes)
+            _validate(w, version, 'after defragmenting a bundle with %d complete rows' % sc['rows'])
+        except M.Mismatch as m:
+            v = {'sig': 'C19:%s:%s:full-rows' % (m.kind, name), 'msg': m.msg}
+    return {'violation': v, 'digest': C.digest_of('rows', sc), 'nontrivial': True, 'steps': len(coords), 'sim_time': 0.0,
+            'faults': {}, 'probes': probes,
+            'sample': {'mode': 'bundle with complete rows', 'backend': name, 'rows': sc['rows']}}
+
+
 def gen(t, tier):
     if t.chance(0.01):
         return _gen_huge(t)
+    if t.chance(0.015):
+        return _gen_rows(t)
     version = t.pick([1, 2])
     mode = t.weighted([('seq', 3), ('conc', 2)])
     npool = t.randint(2, 8)
@@ -219,6 +261,12 @@ def _gen_defrag(t):
 
 
 def shrink(sc):
+    if sc.get('kind') == 'rows':
+        if len(sc['overwrite']) > 1:
+            c = copy.deepcopy(sc)
+            c['overwrite'] = sc['overwrite'][:1]
+            yield c
+        return
     if sc.get('kind') == 'huge':
         for key in ('before', 'after'):
             for i in range(len(sc[key])):
@@ -274,6 +322,8 @@ def _bundle_sizes(tree):
 def run(sc, tape):
     if sc.get('kind') == 'huge':
         return _run_huge(sc, tape)
+    if sc.get('kind') == 'rows':
+        return _run_rows(sc, tape)
     # the cache may live in a directory whose name contains the bundle extension (e.g. /data/esri.bundles/osm)
     _CDIR[0] = sc.get('cache_dir') or C.CACHE_DIR
     version = sc['version']
